@@ -76,9 +76,10 @@ PeerConnection<type>::update_interested() {
   m_send_interested = !m_down_interested;
   m_down_interested = true;
 
-  // Hmm... does this belong here, or should we insert ourselves into
-  // the queue when we receive the unchoke?
-//   m_download->choke_group()->down_queue()->set_queued(this, &m_down_choke);
+  // The peer may already have us unchoked (it unchoked while we had nothing to ask for): without
+  // queueing here nothing ever puts the connection back into the download choke queue.
+  if (m_down_unchoked)
+    m_download->choke_group()->down_queue()->set_queued(this, &m_down_choke);
 }
 
 template<Download::ConnectionType type>
